@@ -5,6 +5,19 @@ boot.boot()
 from vtlengine.DataTypes.TimeHandling import PeriodDuration, TimePeriodHandler  # noqa: E402
 from vt.sqlsmt.pytime import handler_ok_py  # noqa: E402
 
+import vtlengine.DataTypes.TimeHandling as TH  # noqa: E402
+
+
+class _LightError(Exception):
+    """stand-in for RunTimeError inside TimeHandling while tracing: message formatting (which would force CrossHair to
+    realise the symbolic day / year) is skipped; only the fact that an error is raised matters here"""
+
+    def __init__(self, *a, **k):
+        Exception.__init__(self, a[0] if a else "error")
+
+
+TH.RunTimeError = _LightError
+
 INDS = ["A", "S", "Q", "M", "W", "D", "X"]
 PERIODS = dict(PeriodDuration.periods)
 
